@@ -17,6 +17,29 @@ def _classify(line, r):
         return "wire.customtype-numeral-on-message-typed-field"
     if code == 2:
         return "wire.families-disagree.%s" % h.get("msg", "?")
+    if code == 30:
+        # the source row the comparison stopped at (the driver lists the numbered rows of the file):
+        # name the construct / the declaration in the key
+        fsafe = re.sub(r"[^A-Za-z0-9_.]", "_", h.get("file", "?"))
+        rows = {}
+        for st in line.get("steps") or []:
+            m = re.match(r"source row (\d+): (\w+) (.*)", st)
+            if m:
+                rows[int(m.group(1))] = (m.group(2), m.group(3))
+        for i in sorted(rows):
+            if rows[i][0] == "RUnsupported":
+                m = re.match(r'"[^"]*" (\d+)', rows[i][1])
+                return "descriptor.proto-source-unsupported.%s.line%s" % (fsafe, m.group(1) if m else "0")
+        if r[1] in rows:
+            kind, rest = rows[r[1]]
+            names = re.findall(r'"((?:[^"]|"")*)"', rest)[:(1 if kind == "ROpt" else 2)]
+            subj = ".".join(re.sub(r"[^A-Za-z0-9_.]", "_", n.split(" ")[-1]) for n in names if n)
+            return "descriptor.proto-source-differs.%s.%s.%s.at%d" % (fsafe, kind, subj[:120], r[1])
+    if code == 11:
+        for st in line.get("steps") or []:
+            m = re.search(r"message (\S+) field (\w+)", st)
+            if m:
+                return "descriptor.message.%s.%s.field-%s.at%d" % (re.sub(r"[^A-Za-z0-9_.]", "_", h.get("file", "?")), h.get("name", "?").replace("/", "_"), m.group(2), r[1])
     name = {10: "file", 11: "message", 12: "enum", 13: "service", 14: "imported-message", 15: "grpc-service-desc", 20: "unregistered-msg",
             21: "signer-unresolved", 30: "proto-source-differs"}.get(code, "code%d" % code)
     return "descriptor.%s.%s.%s.at%d" % (name, re.sub(r"[^A-Za-z0-9_.]", "_", h.get("file", "?")), h.get("name", "?").replace("/", "_"), r[1])
@@ -64,7 +87,7 @@ PROPS["C20"] = dict(
         14: "an imported message (Coin, PageRequest, Any, ...) has a different wire layout in the two families",
         20: "a transaction message (request type of a Msg service) is not registered as sdk.Msg in the interface registry",
         21: "the cosmos.msg.v1.signer option of a transaction message does not resolve to an address field",
-        30: "the text of the .proto file and the generated descriptors disagree",
+        30: "the text of the .proto file and the generated descriptors disagree (or the text uses a construct the extractor does not understand: RUnsupported row naming file and line)",
     },
     trusted_base=[
         "translator harness/cmd/proto (reads both registries and both families' grpc.ServiceDesc values, normalises options to wire form, "
